@@ -102,6 +102,14 @@ func (vc *VC) stdlibModel(name string, c *ssa.CallCommon, args []Val, st *State,
 	if r, ok := vc.binaryModel(name, args, st, reach, rt, pos); ok {
 		return r, true
 	}
+	if name == "context.WithCancel" {
+		vc.assume("assumed contract: context.WithCancel returns a non-nil context and a non-nil cancel function, and writes nothing the caller can see")
+		tup := rt.(*types.Tuple)
+		c := vc.freshTyped(st, "cancelctx", tup.At(0).Type(), reach)
+		vc.addAssume(reach, not(app("(_ is dnil)", c.t)))
+		f := vc.freshRef(st, "cancelfn")
+		return Val{tuple: []Val{c, {t: f, typ: tup.At(1).Type()}}, typ: rt}, true
+	}
 	if name == "strconv.AppendInt" || name == "strconv.AppendUint" {
 		return vc.appendIntModel(args, st, reach, rt), true
 	}
@@ -109,6 +117,11 @@ func (vc *VC) stdlibModel(name string, c *ssa.CallCommon, args []Val, st *State,
 		vc.assume("assumed frame: " + name + " touches only its receiver object and does not panic")
 		lv := vc.lvOf(args[0])
 		vc.nilCheck(lv, reach, pos, "method call on nil receiver")
+		if strings.HasPrefix(name, "(*sync.") {
+			// a mutex has no state a contract can read: locking changes nothing visible
+			// (the struct it is embedded in must not be havocked along with it)
+			return vc.freshTyped(st, "call", rt, reach), true
+		}
 		vc.havocHeap(st, lv.rootHeap())
 		vc.havocHeap(st, "alloc")
 		return vc.freshTyped(st, "call", rt, reach), true
